@@ -127,6 +127,10 @@ func runC10(c *Ctx, idx int, o *Obs) {
 	if !c.Thorough() && ntax > 30 && nboot > 20 {
 		nboot = 20
 	}
+	if idx%40 == 5 { // many bootstrap trees on few taxa: counts beyond one byte
+		ntax, nboot = 4+r.Intn(7), gen.Pick(r, 255, 256, 257, 300, 1000)
+	}
+	o.AddSet("list:bootstrap_sizes", fmt.Sprint(nboot))
 	base := gen.Tree(r, gen.Opts{N: ntax, Shape: gen.Pick(r, "random", "random", "caterpillar", "balanced"), RootDeg: 3,
 		MultiP: gen.Pick(r, 0.0, 0.0, 0.2), Lens: "all", LenCls: "len", Names: gen.Pick(r, "simple", "simple", "hostile")})
 	baseText := base.Newick()
